@@ -248,7 +248,9 @@ CLAIM = {
     "text": "Call-graph who-may-call rules plus MIR must-pass-through/provenance rules decide, for every code path, that write access is gated "
             "(check_can_write before each mutating catalog entry, not bypassable), that catalog/storage mutators are only reachable from the "
             "catalog operators and bootstrap, that temp catalogs are fresh per session and the system catalog read-only, and that segment "
-            "publication is atomic. These are isolation-by-construction facts; the sequential meaning of statement histories is not decided.",
+            "publication is atomic, and that each catalog operator transitively reaches only the mutators of its own statement kind (a CREATE "
+            "never drops, an INSERT never touches the catalog). These are isolation-by-construction facts; the sequential meaning of "
+            "statement histories is not decided.",
     "note": "trusted: rustc MIR; class-hierarchy call graph; allow-list of mutator callers in rules/c14.py",
     "technique": "static analysis: who-may-call (call graph) + MIR must-pass-through / provenance (rustc_private driver)",
 }
